@@ -96,6 +96,19 @@ func genC13(r *vh.Rand, idx int) c13Spec {
 	if s.PendAnswer > 0 && r.Bool() {
 		s.CloseOnTick = true
 	}
+	if s.Pending && s.PendAnswer == 0 && s.Hand == "" && r.Chance(1, 3) {
+		// only the sending direction breaks (the peer closed its input): the write of one ping fails for good, the
+		// reader keeps waiting, the user's call is outstanding. Every later ping fails locally; a run of failures it is.
+		k := r.Intn(len(s.Pattern))
+		for i := range s.Pattern {
+			if i < k {
+				s.Pattern[i] = "A"
+			}
+		}
+		s.Pattern[k] = "B"
+		s.Pattern = s.Pattern[:k+1]
+		s.CloseAfter = k + 8
+	}
 	if !s.Pending && s.Hand == "" && r.Chance(1, 4) {
 		s.Incoming = "parked"
 	}
@@ -208,6 +221,8 @@ func runC13(c *vh.Case, spec c13Spec) {
 				sc.Inject(vhm.ErrResp(id, -32601, "Method not found", `{"method":"ping"}`))
 			case "R":
 				return fmt.Errorf("%w: verif-rejected", jsonrpc2.ErrRejected)
+			case "B":
+				return errors.New("verif: write: broken pipe")
 			case "S":
 			case "C":
 				cmu.Lock()
@@ -391,15 +406,32 @@ func decideC13(c *vh.Case, spec c13Spec) {
 	var wantClose int64 = -1
 	stopped := false
 	failures, recovered := 0, false
+	broken := false
 	for i := 0; ; i++ {
 		t := start + int64(i+1)*iv
 		if t > harnessClose || stopped || wantClose >= 0 {
 			break
 		}
-		wantPings = append(wantPings, t)
 		o := "A"
 		if i < len(spec.Pattern) {
 			o = spec.Pattern[i]
+		}
+		if broken {
+			// the writer is broken: further pings fail locally (they never reach the peer) and count as misses
+			consecutive++
+			if consecutive >= thr {
+				wantClose = t
+			}
+			continue
+		}
+		wantPings = append(wantPings, t)
+		if o == "B" {
+			broken = true
+			consecutive++
+			if consecutive >= thr {
+				wantClose = t
+			}
+			continue
 		}
 		switch o {
 		case "A", "L":
